@@ -73,7 +73,12 @@ def one(sc, binary, scratch):
         with open(os.path.join(d, "ext"), "w") as f:
             f.write(" " + ext + "\n")
         kw.update(domain=None, ext=None, domain_file=os.path.join(d, "dom"), ext_file=os.path.join(d, "ext"))
-    else:  # domain from stdin, extension by flag (both cannot come from stdin: one line each is read in turn)
+    elif sc["source"] == "stdin-both":
+        # tacd(8): "the domain name is read first, then the acmeIdentifier extension" — both lines are
+        # written at once, as `printf … | tacd` or a here-document does
+        kw.update(domain=None, ext=None)
+        stdin_text = dom.rstrip("\n") + "\n" + ext + "\n"
+    else:  # domain from stdin, extension by flag
         kw.update(domain=None, ext=ext)
         stdin_text = dom + "\n"
     listen = None
@@ -139,7 +144,7 @@ def build_scenarios(ctx, helper, fixed=None):
     specs = fixed or []
     while len(specs) < n and not fixed:
         dom = gen_domain(rng)
-        source = rng.choice(["flag", "flag", "file", "stdin"])
+        source = rng.choice(["flag", "flag", "file", "stdin", "stdin-both"])
         text = dom if source == "flag" else rng.choice(["", " ", "\t"]) + dom + rng.choice(["", " ", "\n", " \n"])
         specs.append({"domain": dom, "domain_text": text, "source": source,
                       "acct_key": rng.choice(list(keys)), "token": "".join(rng.choice(
